@@ -204,3 +204,46 @@ def key_expression_path(ex, kind, path, wild):
         claims["path_is_fixed_steps_then_wildcard_plus_index"] = sand(len(seen["path"]) == len(want), *[a == b for a, b in zip(seen["path"], want)]) if len(seen["path"]) == len(want) else False
         claims["ranged_iff_wildcard"] = key.is_ranged == (wild is not None)
     return claims
+
+
+# ------------------------------------------------------------------ tr(KEY, TREE) with ranged keys: every key at the requested index, every control block proves its leaf
+from btclib.curves.curve import mult as _mult, secp256k1 as _secp
+from btclib.script import taproot as _taproot
+
+_TR_SHAPES = {"pair": lambda k: (k[1], k[2]), "left": lambda k: ((k[1], k[2]), k[3]), "right": lambda k: (k[1], (k[2], k[3])), "single": lambda k: k[1]}
+
+
+@ob("C14", "tr_descriptor_derives_every_key_at_the_requested_index", quick=[dict(shape=s) for s in _TR_SHAPES], thorough=[dict(shape=s) for s in _TR_SHAPES],
+    bound="tr(KEY, TREE) over ranged KEY expressions, trees of 1..3 key leaves (both leanings), derivation index 1..9 (case split; a wide symbolic index is enumerated by the descriptor's own dictionaries: solver-unknown / wall timeout): the output script, the merkle root and every leaf's control block "
+          "ask every KEY expression -- the internal key included -- for its key at that index and at no other, and each control block proves its leaf against the output key (real BIP341 arithmetic on "
+          "the concrete keys the stub answers)",
+    stubs=["KeyExpression.sec records the index it is asked at and answers a fixed valid key per expression (real derivation is C07's subject)"],
+    functions=["btclib.descriptors.descriptors.TrDescriptor._scripts", "btclib.descriptors.descriptors.TrDescriptor._leaf", "btclib.descriptors.descriptors.TrDescriptor.taproot_leaf_scripts",
+               "btclib.script.taproot.check_output_pubkey"], min_ok=1, timeout=300)
+def tr_descriptor_index(ex, shape):
+    ex.concrete_randomness()                           # the point arithmetic below runs on concrete keys: blinding factors come from the real CSPRNG
+    index = ex.concretize(ex.int("index", 1, 9))      # case split: the descriptor keys caches and dictionaries by the index, which would enumerate a wide symbolic one
+    keys = [_ke.KeyExpression(xkey=f"xpub-stub-{j}", der_path=(), wildcard=0) for j in range(4)]
+    secs = {}
+    for j, k in enumerate(keys):
+        P = _mult(j + 2, _secp.G, _secp)
+        secs[id(k)] = bytes([2 + (P[1] & 1)]) + P[0].to_bytes(32, "big")
+    asked = []
+
+    def fake_sec(self, idx=0, network="mainnet", prv_keys=None):
+        asked.append(idx)
+        return secs[id(self)]
+    if ex.concrete:
+        ex.stub(_ke.KeyExpression.sec, fake_sec, owner=_ke.KeyExpression, attr="sec")      # the concrete twin patches the class attribute
+    else:
+        for k in keys:                                                                      # symbolic mode matches the bound method by equality
+            ex.stub(k.sec, (lambda idx=0, network="mainnet", prv_keys=None, _k=k: fake_sec(_k, idx, network, prv_keys)))
+    d = D.TrDescriptor(internal_key=keys[0], tree=_TR_SHAPES[shape](keys))
+    spk = d.script_pub_keys(index)[0].script if hasattr(d.script_pub_keys(index)[0], "script") else d.script_pub_keys(index)[0]
+    leaves = d.taproot_leaf_scripts(index)
+    q = bytes(spk)[2:]
+    nleaves = {"single": 1, "pair": 2}.get(shape, 3)
+    claims = {"every_key_is_asked_at_the_requested_index": sand(len(asked) > 0, *[a == index for a in asked]),
+              "one_control_block_per_leaf": len(leaves) == nleaves,
+              "every_control_block_proves_its_leaf": all(_taproot.check_output_pubkey(q, script, cb) for cb, (script, _v) in leaves.items())}
+    return claims
